@@ -1,4 +1,4 @@
-import Bardolph.Proofs.Sim
+import Bardolph.Proofs.SimX
 /-!
 Statement-level simulation lemmas for C01 (`Props/C01Sim.lean`): the fragment of the language
 covered, and for every statement form of the fragment "the code `Gen.genStmt` emits does what
@@ -10,63 +10,87 @@ open Vm VmSteps Sem Gen
 
 /-! ## the fragment -/
 
-def RangeOK (r : Range) : Prop :=
-  RvOK r.first ∧ match r.last with
-    | some l => RvOK l
+variable {V : String → Prop}
+
+def RangeOK (V : String → Prop) (r : Range) : Prop :=
+  RvC V r.first ∧ match r.last with
+    | some l => RvC V l
     | none => True
 
-def ORangeOK : Option Range → Prop
+def ORangeOK (V : String → Prop) : Option Range → Prop
   | none => True
-  | some r => RangeOK r
+  | some r => RangeOK V r
 
 def ArgsOK : Args → Prop
   | .nil => True
   | .cons a rest => RvOK a ∧ ArgsOK rest
 
-def LoopHdrOK : LoopHdr → Prop
+/-- the `with` clause of a loop: pure operands -/
+def WithOK (V : String → Prop) : WithClause → Prop
+  | .fromTo _ a b => RvC V a ∧ RvC V b
+  | .cycle _ start => match start with | some r => RvC V r | none => True
+
+def OWithOK (V : String → Prop) : Option WithClause → Prop
+  | none => True
+  | some wc => WithOK V wc
+
+/-- the sources of `repeat in …`: pure names -/
+def ItemOK (V : String → Prop) : IterItem → Prop
+  | .all => True
+  | .light n => RvC V n
+  | .group n => RvC V n
+  | .location n => RvC V n
+
+def LoopHdrOK (V : String → Prop) : LoopHdr → Prop
   | .forever => True
-  | .count n => RvOK n
-  | .while_ c => RvOK c
-  | _ => False
+  | .count n => RvC V n
+  | .while_ c => RvC V c
+  | .range _ a b => RvC V a ∧ RvC V b
+  | .interp n v a b => RvC V n ∧ WithOK V (.fromTo v a b)
+  | .cycle n v start => RvC V n ∧ WithOK V (.cycle v start)
+  | .all _ w => OWithOK V w
+  | .groups _ w => OWithOK V w
+  | .locations _ w => OWithOK V w
+  | .iter items _ w => (∀ i ∈ items, ItemOK V i) ∧ OWithOK V w
 
 mutual
   /-- statements of the fragment -/
-  def FragStmt : Stmt → Prop
-    | .setReg r v => r ≠ .unitMode ∧ RvOK v
+  def FragStmt (V : String → Prop) : Stmt → Prop
+    | .setReg r v => SettableReg r ∧ RvC V v
     | .units _ => True
     | .actAll _ => True
     | .setDefault => True
-    | .action _ ops => FragOperands ops
-    | .get name => RvOK name
+    | .action _ ops => FragOperands V ops
+    | .get name => RvC V name
     | .wait => True
     | .timeAt _ => True
-    | .assign _ v => RvOK v
+    | .assign _ v => RvC V v
     | .defMacro _ _ => True
     | .defRoutine _ _ _ => False
-    | .call _ ps as => SimpleArgs as ∧ NoResultReg as ∧ ps.Nodup
-    | .ret v => (match v with | some rv => RvOK rv | none => True)
-    | .ite c t e => RvOK c ∧ FragBlock t ∧ (match e with | some b => FragBlock b | none => True)
-    | .repeat_ h body => LoopHdrOK h ∧ FragBlock body
+    | .call _ ps as => ArgsC V as ∧ ps.Nodup
+    | .ret v => (match v with | some rv => RvC V rv | none => True)
+    | .ite c t e => RvC V c ∧ FragBlock V t ∧ (match e with | some b => FragBlock V b | none => True)
+    | .repeat_ h body => LoopHdrOK V h ∧ FragBlock V body
     | .brk => True
-    | .print v => RvOK v
-    | .println v => (match v with | some rv => RvOK rv | none => True)
+    | .print v => RvC V v
+    | .println v => (match v with | some rv => RvC V rv | none => True)
     | .printf fmt as =>
       ArgsOK as ∧ as.toList.length ≤ positionalCount (fmt.replace "\\n" "\n").toList ∧
         "result" ∉ fieldNames (fmt.replace "\\n" "\n").toList
-    | .stage rows cols _ => ORangeOK rows ∧ ORangeOK cols
-  def FragBlock : Block → Prop
+    | .stage rows cols _ => ORangeOK V rows ∧ ORangeOK V cols
+  def FragBlock (V : String → Prop) : Block → Prop
     | .nil => True
-    | .cons s rest => FragStmt s ∧ FragBlock rest
-  def FragOperand : Operand_ → Prop
+    | .cons s rest => FragStmt V s ∧ FragBlock V rest
+  def FragOperand (V : String → Prop) : Operand_ → Prop
     | .light _ => True
     | .group _ => True
     | .location _ => True
-    | .zone _ r => RangeOK r
-    | .matrixInline _ rows cols _ => ORangeOK rows ∧ ORangeOK cols
-    | .matrixBlock _ body => FragBlock body
-  def FragOperands : Operands → Prop
+    | .zone _ r => RangeOK V r
+    | .matrixInline _ rows cols _ => ORangeOK V rows ∧ ORangeOK V cols
+    | .matrixBlock _ body => FragBlock V body
+  def FragOperands (V : String → Prop) : Operands → Prop
     | .nil => True
-    | .cons o rest => FragOperand o ∧ FragOperands rest
+    | .cons o rest => FragOperand V o ∧ FragOperands V rest
 end
 
 /-- where control is after a piece of code: past it, or — after `break` — at the enclosing
@@ -76,15 +100,56 @@ def Target (pc len exit : Nat) : Outcome → Nat
   | _ => pc + len
 
 def StmtGoal (img : Image) (K : Ctx) (st : Stmt) (f : Nat) : Prop :=
-  ∀ (σ σ' : S) (o : Outcome) (s : State) (pc exit : Nat) (stk : List Frame),
+  ∀ (σ σ' : S) (o : Outcome) (s : State) (pc exit : Nat) (stk : Stk),
     Sim K stk σ s → s.pc = (pc : Int) → CodeAt img pc (resolve (genStmt st) pc exit) →
     execStmt f st σ = (o, σ') → (o = .normal ∨ o = .brk) →
     Exec img s (At K (Target pc (genStmt st).length exit o) stk [] σ')
 
 variable {img : Image} {K : Ctx}
 
-theorem stmt_setReg (f : Nat) (r : Reg) (v : Rv) (hr : r ≠ .unitMode) (hv : RvOK v) :
-    StmtGoal img K (.setReg r v) (f + 1) := by
+/-- the value positions at every fuel up to `f` -/
+def RvToGoals (V : String → Prop) (img : Image) (K : Ctx) (f : Nat) : Prop := ∀ g, g ≤ f → RvToGoal V img K g
+
+/-! ### value positions (with calls) at statement level -/
+
+/-- a failed evaluation is not one of the outcomes the theorem talks about -/
+theorem errorC_excluded {v : Rv} {f : Nat} {σ : S} {o : Outcome}
+    (hev : evalRv f v σ = .error o) (ho : o = .normal ∨ o = .brk) : False := by
+  have := evalRvC_error hev
+  rcases ho with rfl | rfl <;> simp at this
+
+/-- … delivered in `result` (condition, printed value, returned value) -/
+theorem rv_toResult {f : Nat} (ihRv : RvToGoal V img K f) (v : Rv) (hv : RvC V v) {stk : Stk} {σ σ' : S}
+    {s : State} {pc : Nat} {x : Val} (h : Sim K stk σ s) (hpc : s.pc = (pc : Int))
+    (hc : CodeAt img pc (genRv v (.to Gen.result))) (hev : evalRv f v σ = .ok (x, σ')) :
+    Exec img s (fun t => At K (pc + (genRv v (.to Gen.result)).length) stk [] σ' t ∧ t.regs .result = x) := by
+  refine (ihRv v hv Gen.result (by simp [Gen.result]) σ σ' x s pc stk h hpc hc hev
+    (fun s0 h0 => h0.running)).mono fun t ⟨s0, h0, ht⟩ => ?_
+  subst ht
+  exact ⟨⟨rfl, (h0.setResult x).setPc _⟩, by simp [Gen.result, State.put, State.setReg]⟩
+
+/-- … into a register -/
+theorem rv_setReg {f : Nat} (ihRv : RvToGoal V img K f) (v : Rv) (hv : RvC V v) (r : Reg) (hr : SettableReg r)
+    {stk : Stk} {σ σ' : S} {s : State} {pc : Nat} {x : Val} (h : Sim K stk σ s) (hpc : s.pc = (pc : Int))
+    (hc : CodeAt img pc (genRv v (.to (.reg r)))) (hev : evalRv f v σ = .ok (x, σ')) :
+    Exec img s (At K (pc + (genRv v (.to (.reg r))).length) stk [] (σ'.setReg r x)) := by
+  refine (ihRv v hv (.reg r) (by simpa using hr.1) σ σ' x s pc stk h hpc hc hev
+    (fun s0 h0 => h0.running)).mono fun t ⟨s0, h0, ht⟩ => ?_
+  subst ht
+  exact ⟨rfl, (h0.setReg r x hr).setPc _⟩
+
+/-- … into a variable -/
+theorem rv_assign {f : Nat} (ihRv : RvToGoal V img K f) (v : Rv) (hv : RvC V v) (n : String)
+    {stk : Stk} {σ σ' : S} {s : State} {pc : Nat} {x : Val} (h : Sim K stk σ s) (hpc : s.pc = (pc : Int))
+    (hc : CodeAt img pc (genRv v (.to (.var n)))) (hev : evalRv f v σ = .ok (x, σ')) :
+    Exec img s (At K (pc + (genRv v (.to (.var n))).length) stk [] (σ'.assign n x)) := by
+  refine (ihRv v hv (.var n) (by simp) σ σ' x s pc stk h hpc hc hev
+    (fun s0 h0 => (h0.assign n x).running)).mono fun t ⟨s0, h0, ht⟩ => ?_
+  subst ht
+  exact ⟨rfl, (h0.assign n x).setPc _⟩
+
+theorem stmt_setReg (f : Nat) (ihRv : RvToGoal V img K f) (r : Reg) (v : Rv) (hr : SettableReg r)
+    (hv : RvC V v) : StmtGoal img K (.setReg r v) (f + 1) := by
   intro σ σ' o s pc exit stk sim hpc hc h ho
   simp only [genStmt, resolve_ins, ins_length] at hc ⊢
   simp only [execStmt] at h
@@ -92,15 +157,13 @@ theorem stmt_setReg (f : Nat) (r : Reg) (v : Rv) (hr : r ≠ .unitMode) (hv : Rv
   · rename_i x σ1 hev
     simp only [Prod.mk.injEq] at h
     obtain ⟨rfl, rfl⟩ := h
-    obtain ⟨rfl, hex⟩ := exec_setReg v hv r hr sim hpc hc hev
-    exact hex
+    exact rv_setReg ihRv v hv r hr sim hpc hc hev
   · rename_i o' hev
     simp only [Prod.mk.injEq] at h
     obtain ⟨rfl, rfl⟩ := h
-    have := evalRv_error hv f σ _ hev
-    rcases ho with rfl | rfl <;> simp at this
+    exact (errorC_excluded hev ho).elim
 
-theorem stmt_assign (f : Nat) (n : String) (v : Rv) (hv : RvOK v) :
+theorem stmt_assign (f : Nat) (ihRv : RvToGoal V img K f) (n : String) (v : Rv) (hv : RvC V v) :
     StmtGoal img K (.assign n v) (f + 1) := by
   intro σ σ' o s pc exit stk sim hpc hc h ho
   simp only [genStmt, resolve_ins, ins_length] at hc ⊢
@@ -109,13 +172,11 @@ theorem stmt_assign (f : Nat) (n : String) (v : Rv) (hv : RvOK v) :
   · rename_i x σ1 hev
     simp only [Prod.mk.injEq] at h
     obtain ⟨rfl, rfl⟩ := h
-    obtain ⟨rfl, hex⟩ := exec_assign v hv n sim hpc hc hev
-    exact hex
+    exact rv_assign ihRv v hv n sim hpc hc hev
   · rename_i o' hev
     simp only [Prod.mk.injEq] at h
     obtain ⟨rfl, rfl⟩ := h
-    have := evalRv_error hv f σ _ hev
-    rcases ho with rfl | rfl <;> simp at this
+    exact (errorC_excluded hev ho).elim
 
 
 /-- a failed evaluation is not one of the outcomes the theorem talks about -/
@@ -124,7 +185,8 @@ theorem error_excluded {v : Rv} (hv : RvOK v) {f : Nat} {σ : S} {o : Outcome}
   have := evalRv_error hv f σ _ hev
   rcases ho with rfl | rfl <;> simp at this
 
-theorem stmt_print (f : Nat) (v : Rv) (hv : RvOK v) : StmtGoal img K (.print v) (f + 1) := by
+theorem stmt_print (f : Nat) (ihRv : RvToGoal V img K f) (v : Rv) (hv : RvC V v) :
+    StmtGoal img K (.print v) (f + 1) := by
   intro σ σ' o s pc exit stk sim hpc hc h ho
   simp only [genStmt, resolve_ins, ins_length] at hc ⊢
   simp only [execStmt] at h
@@ -132,8 +194,7 @@ theorem stmt_print (f : Nat) (v : Rv) (hv : RvOK v) : StmtGoal img K (.print v) 
   · rename_i x σ1 hev
     simp only [Prod.mk.injEq] at h
     obtain ⟨rfl, rfl⟩ := h
-    obtain ⟨rfl, hex⟩ := exec_toResult v hv sim hpc hc.left hev
-    refine hex.trans fun t ⟨ht, hres⟩ => ?_
+    refine (rv_toResult ihRv v hv sim hpc hc.left hev).trans fun t ⟨ht, hres⟩ => ?_
     refine (exec_outRegister ht.2 ht.1 hc.right.head).trans fun t2 ht2 => ?_
     rw [hres] at ht2
     refine (exec_outPrint x _ ht2.2 ht2.1 hc.right.tail.head).mono fun t3 ht3 => ?_
@@ -141,10 +202,10 @@ theorem stmt_print (f : Nat) (v : Rv) (hv : RvOK v) : StmtGoal img K (.print v) 
   · rename_i o' hev
     simp only [Prod.mk.injEq] at h
     obtain ⟨rfl, rfl⟩ := h
-    exact (error_excluded hv hev ho).elim
+    exact (errorC_excluded hev ho).elim
 
-theorem stmt_println (f : Nat) (v : Option Rv)
-    (hv : match v with | some rv => RvOK rv | none => True) :
+theorem stmt_println (f : Nat) (ihRv : RvToGoal V img K f) (v : Option Rv)
+    (hv : match v with | some rv => RvC V rv | none => True) :
     StmtGoal img K (.println v) (f + 1) := by
   intro σ σ' o s pc exit stk sim hpc hc h ho
   cases v with
@@ -154,15 +215,14 @@ theorem stmt_println (f : Nat) (v : Option Rv)
     obtain ⟨rfl, rfl⟩ := h
     exact exec_outPrintEnd _ sim hpc hc.head
   | some rv =>
-    have hv : RvOK rv := hv
+    have hv : RvC V rv := hv
     simp only [genStmt, resolve_ins, ins_length] at hc ⊢
     simp only [execStmt] at h
     split at h
     · rename_i x σ1 hev
       simp only [Prod.mk.injEq] at h
       obtain ⟨rfl, rfl⟩ := h
-      obtain ⟨rfl, hex⟩ := exec_toResult rv hv sim hpc hc.left.left hev
-      refine hex.trans fun t ⟨ht, hres⟩ => ?_
+      refine (rv_toResult ihRv rv hv sim hpc hc.left.left hev).trans fun t ⟨ht, hres⟩ => ?_
       refine (exec_outRegister ht.2 ht.1 hc.left.right.head).trans fun t2 ht2 => ?_
       rw [hres] at ht2
       refine (exec_outPrint x _ ht2.2 ht2.1 hc.left.right.tail.head).trans fun t3 ht3 => ?_
@@ -174,7 +234,7 @@ theorem stmt_println (f : Nat) (v : Option Rv)
     · rename_i o' hev
       simp only [Prod.mk.injEq] at h
       obtain ⟨rfl, rfl⟩ := h
-      exact (error_excluded hv hev ho).elim
+      exact (errorC_excluded hev ho).elim
 
 theorem stmt_defMacro (f : Nat) (n : String) (v : Val) : StmtGoal img K (.defMacro n v) (f + 1) := by
   intro σ σ' o s pc exit stk sim hpc hc h ho
@@ -237,41 +297,40 @@ theorem stmt_timeAt (f : Nat) (ps : List TP.Pat) : StmtGoal img K (.timeAt ps) (
       fun t ht => ⟨?_, ?_⟩
     · rw [ht.1]; simp [Target]; omega
     · have h2 := ht.2
-      refine ⟨h2.running, h2.stack, h2.loops, h2.eval, h2.unnamed, h2.locals, h2.status, h2.globals,
+      refine ⟨h2.running, h2.stack, h2.loops, h2.eval, h2.evok, h2.unnamed, h2.locals, h2.status, h2.umode, h2.globals,
         h2.constants, h2.lights, h2.trace, h2.defaultColor, h2.matrix, h2.draws, fun r hr => ?_⟩
       rw [← h2.regs r hr]
       simp only [S.setReg, State.setReg]
       split <;> simp_all
 
-variable {img : Image} {K : Ctx} {stk : List Frame} {un : List Val} {σ : S} {s : State} {pc : Nat}
+variable {img : Image} {K : Ctx} {stk : Stk} {un : List Val} {σ : S} {s : State} {pc : Nat}
 
 /-! ### ranges -/
 
-theorem evalRange_error {r : Range} (hr : RangeOK r) (f : Nat) (a b : Reg) (σ : S) (o : Outcome)
+theorem evalRange_error {r : Range} (f : Nat) (a b : Reg) (σ : S) (o : Outcome)
     (h : evalRange f r a b σ = .error o) : o ≠ .normal ∧ o ≠ .brk ∧ o ≠ .ret := by
   cases f with
   | zero => simp [evalRange] at h; subst h; simp
   | succ f =>
-    obtain ⟨h1, h2⟩ := hr
     simp only [evalRange] at h
     split at h
     · rename_i o' he
       simp at h; subst h
-      exact evalRv_error h1 f _ _ he
+      exact evalRvC_error he
     · split at h
       · simp at h
       · rename_i l hl
-        rw [hl] at h2
         split at h
         · rename_i o' he
           simp at h; subst h
-          exact evalRv_error h2 f _ _ he
+          exact evalRvC_error he
         · simp at h
 
-theorem exec_range (r : Range) (hr : RangeOK r) (a b : Reg) (ha : a ≠ .unitMode) (hb : b ≠ .unitMode)
-    (h : SimU K stk un σ s) (hpc : s.pc = (pc : Int)) (hc : CodeAt img pc (genRange a b r))
-    {f : Nat} {σ' : S} (hev : evalRange f r a b σ = .ok σ') :
-    Exec img s (At K (pc + (genRange a b r).length) stk un σ') := by
+theorem exec_range {f : Nat} (ihRvs : RvToGoals V img K f) (r : Range) (hr : RangeOK V r) (a b : Reg)
+    (ha : SettableReg a) (hb : SettableReg b)
+    (h : Sim K stk σ s) (hpc : s.pc = (pc : Int)) (hc : CodeAt img pc (genRange a b r))
+    {σ' : S} (hev : evalRange f r a b σ = .ok σ') :
+    Exec img s (At K (pc + (genRange a b r).length) stk [] σ') := by
   cases f with
   | zero => simp [evalRange] at hev
   | succ f =>
@@ -281,8 +340,7 @@ theorem exec_range (r : Range) (hr : RangeOK r) (a b : Reg) (ha : a ≠ .unitMod
     split at hev
     · simp at hev
     · rename_i x σ1 he1
-      obtain ⟨rfl, hex⟩ := exec_setReg r.first h1 a ha h hpc hc.left he1
-      refine hex.trans fun t ht => ?_
+      refine (rv_setReg (ihRvs f (Nat.le_succ f)) r.first h1 a ha h hpc hc.left he1).trans fun t ht => ?_
       split at hev
       · rename_i hl
         simp only [Except.ok.injEq] at hev
@@ -297,8 +355,7 @@ theorem exec_range (r : Range) (hr : RangeOK r) (a b : Reg) (ha : a ≠ .unitMod
         · rename_i y σ2 he2
           simp only [Except.ok.injEq] at hev
           subst hev
-          obtain ⟨rfl, hex2⟩ := exec_setReg l h2 b hb ht.2 ht.1 hc.right he2
-          refine hex2.mono fun t2 ht2 => ?_
+          refine (rv_setReg (ihRvs f (Nat.le_succ f)) l h2 b hb ht.2 ht.1 hc.right he2).mono fun t2 ht2 => ?_
           simpa [List.length_append, Nat.add_assoc] using ht2
 
 def oCode (a b : Reg) : Option Range → List Instr
@@ -311,18 +368,19 @@ def oEval (f : Nat) (a b : Reg) (o : Option Range) (st : S) : Except Outcome S :
   | none => .ok st
 
 /-- an optional range (`rows`/`cols` of a matrix operand) -/
-theorem exec_orange (o : Option Range) (ho : ORangeOK o) (a b : Reg) (ha : a ≠ .unitMode)
-    (hb : b ≠ .unitMode) (h : SimU K stk un σ s) (hpc : s.pc = (pc : Int))
-    (hc : CodeAt img pc (oCode a b o)) {f : Nat} {σ' : S} (hev : oEval f a b o σ = .ok σ') :
-    Exec img s (At K (pc + (oCode a b o).length) stk un σ') := by
+theorem exec_orange {f : Nat} (ihRvs : RvToGoals V img K f) (o : Option Range) (ho : ORangeOK V o) (a b : Reg)
+    (ha : SettableReg a)
+    (hb : SettableReg b) (h : Sim K stk σ s) (hpc : s.pc = (pc : Int))
+    (hc : CodeAt img pc (oCode a b o)) {σ' : S} (hev : oEval f a b o σ = .ok σ') :
+    Exec img s (At K (pc + (oCode a b o).length) stk [] σ') := by
   cases o with
   | none =>
     simp only [oEval, Except.ok.injEq] at hev
     subst hev
     exact Exec.done ⟨by simpa [oCode] using hpc, h⟩
-  | some r => exact exec_range r ho a b ha hb h hpc hc hev
+  | some r => exact exec_range ihRvs r ho a b ha hb h hpc hc hev
 
-theorem exec_clear (o : Option Range) (a b : Reg) (ha : a ≠ .unitMode) (hb : b ≠ .unitMode)
+theorem exec_clear (o : Option Range) (a b : Reg) (ha : SettableReg a) (hb : SettableReg b)
     (h : SimU K stk un σ s) (hpc : s.pc = (pc : Int))
     (hc : CodeAt img pc (if o.isNone then [Instr.moveq .none (.reg a), .moveq .none (.reg b)] else [])) :
     Exec img s (At K (pc + (if o.isNone then [Instr.moveq .none (.reg a), .moveq .none (.reg b)] else []).length)
@@ -335,7 +393,7 @@ theorem exec_clear (o : Option Range) (a b : Reg) (ha : a ≠ .unitMode) (hb : b
     exact exec_moveqReg .none b hb ht.2 ht.1 hc.tail.head
 
 
-theorem evalMatrixRanges_error {rows cols : Option Range} (hr : ORangeOK rows) (hcl : ORangeOK cols)
+theorem evalMatrixRanges_error {rows cols : Option Range}
     (f : Nat) (cf : Bool) (σ : S) (o : Outcome)
     (h : evalMatrixRanges f rows cols cf σ = .error o) : o ≠ .normal ∧ o ≠ .brk ∧ o ≠ .ret := by
   cases f with
@@ -346,13 +404,13 @@ theorem evalMatrixRanges_error {rows cols : Option Range} (hr : ORangeOK rows) (
       intro st o h
       cases rows with
       | none => simp at h
-      | some r => exact evalRange_error hr f _ _ st o h
+      | some r => exact evalRange_error f _ _ st o h
     have hC : ∀ st o, (match cols with | some r => evalRange f r .firstColumn .lastColumn st | none => .ok st)
         = .error o → o ≠ .normal ∧ o ≠ .brk ∧ o ≠ .ret := by
       intro st o h
       cases cols with
       | none => simp at h
-      | some r => exact evalRange_error hcl f _ _ st o h
+      | some r => exact evalRange_error f _ _ st o h
     simp only [evalMatrixRanges] at h
     split at h
     · rename_i o' hb
@@ -376,12 +434,13 @@ theorem evalMatrixRanges_error {rows cols : Option Range} (hr : ORangeOK rows) (
 
 /-- the ranges of a matrix stage: `MOVEQ matrix operand`, rows and columns in source order,
 absent ranges cleared -/
-theorem exec_matrixRanges (rows cols : Option Range) (cf : Bool) (hr : ORangeOK rows)
-    (hcl : ORangeOK cols) (h : SimU K stk un σ s) (hpc : s.pc = (pc : Int))
+theorem exec_matrixRanges {f : Nat} (ihRvs : RvToGoals V img K f) (rows cols : Option Range) (cf : Bool)
+    (hr : ORangeOK V rows)
+    (hcl : ORangeOK V cols) (h : Sim K stk σ s) (hpc : s.pc = (pc : Int))
     (hc : CodeAt img pc (genMatrixRanges rows cols cf))
-    {f : Nat} {σ' : S}
+    {σ' : S}
     (hev : evalMatrixRanges f rows cols cf (σ.setReg .operand (.operand .matrix)) = .ok σ') :
-    Exec img s (At K (pc + (genMatrixRanges rows cols cf).length) stk un σ') := by
+    Exec img s (At K (pc + (genMatrixRanges rows cols cf).length) stk [] σ') := by
   cases f with
   | zero => simp [evalMatrixRanges] at hev
   | succ f =>
@@ -403,10 +462,10 @@ theorem exec_matrixRanges (rows cols : Option Range) (cf : Bool) (hr : ORangeOK 
         simp only [if_true, List.length_append] at hboth hc1 hc2 hc3 ⊢
         split at hboth
         · rename_i σa ha
-          refine (exec_orange cols hcl .firstColumn .lastColumn (by decide) (by decide) ht0.2 ht0.1
+          refine (exec_orange (fun g hg => ihRvs g (Nat.le_succ_of_le hg)) cols hcl .firstColumn .lastColumn (by decide) (by decide) ht0.2 ht0.1
             (show CodeAt img (pc + 1) (oCode .firstColumn .lastColumn cols) from hc1.left)
             (show oEval f .firstColumn .lastColumn cols _ = _ from ha)).trans fun t1 ht1 => ?_
-          refine (exec_orange rows hr .firstRow .lastRow (by decide) (by decide) ht1.2 ht1.1
+          refine (exec_orange (fun g hg => ihRvs g (Nat.le_succ_of_le hg)) rows hr .firstRow .lastRow (by decide) (by decide) ht1.2 ht1.1
             (show CodeAt img _ (oCode .firstRow .lastRow rows) from hc1.right)
             (show oEval f .firstRow .lastRow rows _ = _ from hboth)).trans fun t2 ht2 => ?_
           have e2 : pc + 1 + (oCode .firstColumn .lastColumn cols).length +
@@ -426,10 +485,10 @@ theorem exec_matrixRanges (rows cols : Option Range) (cf : Bool) (hr : ORangeOK 
         simp only [Bool.false_eq_true, if_false, List.length_append] at hboth hc1 hc2 hc3 ⊢
         split at hboth
         · rename_i σa ha
-          refine (exec_orange rows hr .firstRow .lastRow (by decide) (by decide) ht0.2 ht0.1
+          refine (exec_orange (fun g hg => ihRvs g (Nat.le_succ_of_le hg)) rows hr .firstRow .lastRow (by decide) (by decide) ht0.2 ht0.1
             (show CodeAt img (pc + 1) (oCode .firstRow .lastRow rows) from hc1.left)
             (show oEval f .firstRow .lastRow rows _ = _ from ha)).trans fun t1 ht1 => ?_
-          refine (exec_orange cols hcl .firstColumn .lastColumn (by decide) (by decide) ht1.2 ht1.1
+          refine (exec_orange (fun g hg => ihRvs g (Nat.le_succ_of_le hg)) cols hcl .firstColumn .lastColumn (by decide) (by decide) ht1.2 ht1.1
             (show CodeAt img _ (oCode .firstColumn .lastColumn cols) from hc1.right)
             (show oEval f .firstColumn .lastColumn cols _ = _ from hboth)).trans fun t2 ht2 => ?_
           have e2 : pc + 1 + (oCode .firstRow .lastRow rows).length +
@@ -465,8 +524,9 @@ theorem exec_fire (k : ActKind) (h : SimU K stk un σ s) (hpc : s.pc = (pc : Int
   | on => exact exec_power h hpc hi hdev
   | off => exact exec_power h hpc hi hdev
 
-theorem stmt_stage (f : Nat) (rows cols : Option Range) (cf : Bool) (hr : ORangeOK rows)
-    (hcl : ORangeOK cols) : StmtGoal img K (.stage rows cols cf) (f + 1) := by
+theorem stmt_stage (f : Nat) (ihRvs : RvToGoals V img K f) (rows cols : Option Range) (cf : Bool)
+    (hr : ORangeOK V rows)
+    (hcl : ORangeOK V cols) : StmtGoal img K (.stage rows cols cf) (f + 1) := by
   intro σ σ' o s pc exit stk sim hpc hc h ho
   simp only [genStmt, resolve_ins, ins_length] at hc ⊢
   simp only [execStmt] at h
@@ -474,12 +534,12 @@ theorem stmt_stage (f : Nat) (rows cols : Option Range) (cf : Bool) (hr : ORange
   · rename_i o' he
     simp only [Prod.mk.injEq] at h
     obtain ⟨rfl, rfl⟩ := h
-    have := evalMatrixRanges_error hr hcl f cf _ _ he
+    have := evalMatrixRanges_error f cf _ _ he
     rcases ho with rfl | rfl <;> simp at this
   · rename_i σ1 he
     have hn := device_outcome h ho
     subst hn
-    refine (exec_matrixRanges rows cols cf hr hcl sim hpc hc.left he).trans fun t ht => ?_
+    refine (exec_matrixRanges ihRvs rows cols cf hr hcl sim hpc hc.left he).trans fun t ht => ?_
     refine (exec_color ht.2 ht.1 hc.right.head h).mono fun t2 ht2 => ?_
     simpa [Target, List.length_append, Nat.add_assoc] using ht2
 
@@ -566,7 +626,8 @@ theorem stmt_actAll (f : Nat) (k : ActKind) : StmtGoal img K (.actAll k) (f + 1)
   refine (exec_fire k ht3.2 ht3.1 hc'.right.tail.tail.head hfire).mono fun t4 ht4 => ?_
   simpa [Target, List.length_append, Nat.add_assoc] using ht4
 
-theorem stmt_get (f : Nat) (name : Rv) (hv : RvOK name) : StmtGoal img K (.get name) (f + 1) := by
+theorem stmt_get (f : Nat) (ihRv : RvToGoal V img K f) (name : Rv) (hv : RvC V name) :
+    StmtGoal img K (.get name) (f + 1) := by
   intro σ σ' o s pc exit stk sim hpc hc h ho
   simp only [genStmt, resolve_ins, ins_length] at hc ⊢
   simp only [execStmt] at h
@@ -574,13 +635,12 @@ theorem stmt_get (f : Nat) (name : Rv) (hv : RvOK name) : StmtGoal img K (.get n
   · rename_i n σ1 hev
     have hn := device_outcome h ho
     subst hn
-    obtain ⟨rfl, hex⟩ := exec_toResult name hv sim hpc hc.left hev
-    refine hex.trans fun t ⟨ht, hres⟩ => ?_
+    refine (rv_toResult ihRv name hv sim hpc hc.left hev).trans fun t ⟨ht, hres⟩ => ?_
     refine (exec_moveResultName ht.2 ht.1 hc.right.head).trans fun t2 ⟨ht2, _⟩ => ?_
     rw [hres] at ht2
     have hsim : SimU K stk [] ((σ1.setReg .result n).setReg .name n) t2 := by
       have := ht2.2
-      refine ⟨this.running, this.stack, this.loops, this.eval, this.unnamed, this.locals, this.status,
+      refine ⟨this.running, this.stack, this.loops, this.eval, this.evok, this.unnamed, this.locals, this.status, this.umode,
         this.globals, this.constants, this.lights, this.trace, this.defaultColor, this.matrix, this.draws,
         fun r hr => ?_⟩
       rw [← this.regs r hr]
@@ -593,7 +653,7 @@ theorem stmt_get (f : Nat) (name : Rv) (hv : RvOK name) : StmtGoal img K (.get n
   · rename_i o' hev
     simp only [Prod.mk.injEq] at h
     obtain ⟨rfl, rfl⟩ := h
-    exact (error_excluded hv hev ho).elim
+    exact (errorC_excluded hev ho).elim
 
 
 /-! ### `printf` -/
@@ -708,36 +768,36 @@ macro "cat " h:term : term =>
 
 /-! ## blocks, operands -/
 
-def BlockGoal (img : Image) (K : Ctx) (f : Nat) : Prop :=
-  ∀ b, FragBlock b → ∀ (σ σ' : S) (o : Outcome) (s : State) (pc exit : Nat) (stk : List Frame),
+def BlockGoal (V : String → Prop) (img : Image) (K : Ctx) (f : Nat) : Prop :=
+  ∀ b, FragBlock V b → ∀ (σ σ' : S) (o : Outcome) (s : State) (pc exit : Nat) (stk : Stk),
     Sim K stk σ s → s.pc = (pc : Int) → CodeAt img pc (resolve (genBlock b) pc exit) →
     execBlock f b σ = (o, σ') → (o = .normal ∨ o = .brk) →
     Exec img s (At K (Target pc (genBlock b).length exit o) stk [] σ')
 
-def StmtsGoal (img : Image) (K : Ctx) (f : Nat) : Prop := ∀ st, FragStmt st → StmtGoal img K st f
+def StmtsGoal (V : String → Prop) (img : Image) (K : Ctx) (f : Nat) : Prop := ∀ st, FragStmt V st → StmtGoal img K st f
 
-def OperandGoal (img : Image) (K : Ctx) (f : Nat) : Prop :=
-  ∀ (k : ActKind) (op : Operand_), FragOperand op →
-  ∀ (σ σ' : S) (o : Outcome) (s : State) (pc exit : Nat) (stk : List Frame),
+def OperandGoal (V : String → Prop) (img : Image) (K : Ctx) (f : Nat) : Prop :=
+  ∀ (k : ActKind) (op : Operand_), FragOperand V op →
+  ∀ (σ σ' : S) (o : Outcome) (s : State) (pc exit : Nat) (stk : Stk),
     Sim K stk σ s → s.pc = (pc : Int) →
     CodeAt img pc (resolve (genOperand op ++ ins [opcodeOf k]) pc exit) →
     execOperand f k op σ = (o, σ') → (o = .normal ∨ o = .brk) →
     Exec img s (At K (Target pc ((genOperand op).length + 1) exit o) stk [] σ')
 
-def OperandsGoal (img : Image) (K : Ctx) (f : Nat) : Prop :=
-  ∀ (k : ActKind) (ops : Operands), FragOperands ops →
-  ∀ (σ σ' : S) (o : Outcome) (s : State) (pc exit : Nat) (stk : List Frame),
+def OperandsGoal (V : String → Prop) (img : Image) (K : Ctx) (f : Nat) : Prop :=
+  ∀ (k : ActKind) (ops : Operands), FragOperands V ops →
+  ∀ (σ σ' : S) (o : Outcome) (s : State) (pc exit : Nat) (stk : Stk),
     Sim K stk σ s → s.pc = (pc : Int) →
     CodeAt img pc (resolve (genOperands k ops) pc exit) →
     execOperands f k ops σ = (o, σ') → (o = .normal ∨ o = .brk) →
     Exec img s (At K (Target pc (genOperands k ops).length exit o) stk [] σ')
 
-theorem block_zero : BlockGoal img K 0 := by
+theorem block_zero : BlockGoal V img K 0 := by
   intro b _ σ σ' o s pc exit stk _ _ _ h ho
   simp only [execBlock, Prod.mk.injEq] at h
   rcases ho with rfl | rfl <;> simp at h
 
-theorem block_step (f : Nat) (ihS : StmtsGoal img K f) (ihB : BlockGoal img K f) : BlockGoal img K (f + 1) := by
+theorem block_step (f : Nat) (ihS : StmtsGoal V img K f) (ihB : BlockGoal V img K f) : BlockGoal V img K (f + 1) := by
   intro b hb σ σ' o s pc exit stk sim hpc hc h ho
   cases b with
   | nil =>
@@ -778,7 +838,7 @@ def nameSet (n : NameSpec) (σ : S) : S :=
   | .str x => σ.setReg .name (.str x)
   | .var x => σ.setReg .name (σ.lookup x)
 
-theorem exec_nameSet {stk : List Frame} {un : List Val} {σ : S} {s : State} {pc : Nat}
+theorem exec_nameSet {stk : Stk} {un : List Val} {σ : S} {s : State} {pc : Nat}
     (n : NameSpec) (h : SimU K stk un σ s) (hpc : s.pc = (pc : Int))
     (hi : img.code[pc]? = some (genName n)) :
     Exec img s (At K (pc + 1) stk un (nameSet n σ)) := by
@@ -787,7 +847,7 @@ theorem exec_nameSet {stk : List Frame} {un : List Val} {σ : S} {s : State} {pc
 
 /-- `light`, `group`, `location` operands: name, operand kind, command -/
 theorem operand_plain (k : ActKind) (n : NameSpec) (w : Operand)
-    (σ σ' : S) (o : Outcome) (s : State) (pc : Nat) (stk : List Frame)
+    (σ σ' : S) (o : Outcome) (s : State) (pc : Nat) (stk : Stk)
     (sim : Sim K stk σ s) (hpc : s.pc = (pc : Int))
     (hc : CodeAt img pc ([genName n, .moveq (.operand w) (.reg .operand)] ++ [opcodeOf k]))
     (h : ((nameSet n σ).setReg .operand (.operand w)).device
@@ -801,8 +861,9 @@ theorem operand_plain (k : ActKind) (n : NameSpec) (w : Operand)
   refine (exec_moveqReg _ .operand (by decide) ht.2 ht.1 hc.tail.head).trans fun t2 ht2 => ?_
   exact exec_fire k ht2.2 ht2.1 hc.tail.tail.head h
 
-theorem operand_zone (f : Nat) (k : ActKind) (n : NameSpec) (r : Range) (hr : RangeOK r)
-    (σ σ' : S) (o : Outcome) (s : State) (pc exit : Nat) (stk : List Frame)
+theorem operand_zone (f : Nat) (ihRvs : RvToGoals V img K f) (k : ActKind) (n : NameSpec) (r : Range)
+    (hr : RangeOK V r)
+    (σ σ' : S) (o : Outcome) (s : State) (pc exit : Nat) (stk : Stk)
     (sim : Sim K stk σ s) (hpc : s.pc = (pc : Int))
     (hc : CodeAt img pc (resolve (genOperand (.zone n r) ++ ins [opcodeOf k]) pc exit))
     (h : execOperand (f + 1) k (.zone n r) σ = (o, σ')) (ho : o = .normal ∨ o = .brk) :
@@ -813,13 +874,13 @@ theorem operand_zone (f : Nat) (k : ActKind) (n : NameSpec) (r : Range) (hr : Ra
   · rename_i o' he
     simp only [Prod.mk.injEq] at h
     obtain ⟨rfl, rfl⟩ := h
-    have := evalRange_error hr f _ _ _ _ he
+    have := evalRange_error f _ _ _ _ he
     rcases ho with rfl | rfl <;> simp at this
   · rename_i σ1 he
     have hn := device_outcome h ho
     subst hn
     refine (exec_nameSet n sim hpc hc.left.left.left.head).trans fun t ht => ?_
-    refine (exec_range r hr .firstZone .lastZone (by decide) (by decide) ht.2 ht.1
+    refine (exec_range ihRvs r hr .firstZone .lastZone (by decide) (by decide) ht.2 ht.1
       hc.left.left.right (show evalRange f r .firstZone .lastZone (nameSet n σ) = .ok σ1 by
         cases n <;> exact he)).trans fun t2 ht2 => ?_
     have hc3 := hc.left.right.head
@@ -882,9 +943,10 @@ theorem execOperand_matrixBlock (f : Nat) (k : ActKind) (n : NameSpec) (body : B
         | r => r := by
   cases n <;> simp only [execOperand, nameSet] <;> rfl
 
-theorem operand_matrixInline (f : Nat) (k : ActKind) (n : NameSpec) (rows cols : Option Range)
-    (cf : Bool) (hr : ORangeOK rows) (hcl : ORangeOK cols)
-    (σ σ' : S) (o : Outcome) (s : State) (pc exit : Nat) (stk : List Frame)
+theorem operand_matrixInline (f : Nat) (ihRvs : RvToGoals V img K f) (k : ActKind) (n : NameSpec)
+    (rows cols : Option Range)
+    (cf : Bool) (hr : ORangeOK V rows) (hcl : ORangeOK V cols)
+    (σ σ' : S) (o : Outcome) (s : State) (pc exit : Nat) (stk : Stk)
     (sim : Sim K stk σ s) (hpc : s.pc = (pc : Int))
     (hc : CodeAt img pc (resolve (genOperand (.matrixInline n rows cols cf) ++ ins [opcodeOf k]) pc exit))
     (h : execOperand (f + 1) k (.matrixInline n rows cols cf) σ = (o, σ')) (ho : o = .normal ∨ o = .brk) :
@@ -896,7 +958,7 @@ theorem operand_matrixInline (f : Nat) (k : ActKind) (n : NameSpec) (rows cols :
   · rename_i o' he
     simp only [Prod.mk.injEq] at h
     obtain ⟨rfl, rfl⟩ := h
-    have := evalMatrixRanges_error hr hcl f cf _ _ he
+    have := evalMatrixRanges_error f cf _ _ he
     rcases ho with rfl | rfl <;> simp at this
   · rename_i s2 he
     rw [andThen_eq] at h
@@ -910,7 +972,7 @@ theorem operand_matrixInline (f : Nat) (k : ActKind) (n : NameSpec) (rows cols :
     simp only [List.length_append, List.length_cons, List.length_nil] at hcm hcr hcf
     refine (exec_nameSet n sim hpc hcl1.head).trans fun t ht => ?_
     refine (exec_matrix ht.2 ht.1 hcl1.tail.head hm).trans fun t1 ht1 => ?_
-    refine (exec_matrixRanges rows cols cf hr hcl ht1.2 ht1.1 (by
+    refine (exec_matrixRanges ihRvs rows cols cf hr hcl ht1.2 ht1.1 (by
       have : pc + 1 + 1 = pc + (0 + 1 + 1) := by omega
       rw [this]; exact hcm) he).trans fun t2 ht2 => ?_
     refine (exec_color ht2.2 ht2.1 (idx hcr.head) hcol).trans fun t3 ht3 => ?_
@@ -933,9 +995,9 @@ theorem andThen_cases {r : Outcome × S} {K : S → Outcome × S} {o : Outcome} 
     obtain ⟨rfl, rfl⟩ := h
     exact Or.inr ⟨rfl, hn⟩
 
-theorem operand_matrixBlock (f : Nat) (ihB : BlockGoal img K f) (k : ActKind) (n : NameSpec)
-    (body : Block) (hb : FragBlock body)
-    (σ σ' : S) (o : Outcome) (s : State) (pc exit : Nat) (stk : List Frame)
+theorem operand_matrixBlock (f : Nat) (ihB : BlockGoal V img K f) (k : ActKind) (n : NameSpec)
+    (body : Block) (hb : FragBlock V body)
+    (σ σ' : S) (o : Outcome) (s : State) (pc exit : Nat) (stk : Stk)
     (sim : Sim K stk σ s) (hpc : s.pc = (pc : Int))
     (hc : CodeAt img pc (resolve (genOperand (.matrixBlock n body) ++ ins [opcodeOf k]) pc exit))
     (h : execOperand (f + 1) k (.matrixBlock n body) σ = (o, σ')) (ho : o = .normal ∨ o = .brk) :
@@ -971,12 +1033,13 @@ theorem operand_matrixBlock (f : Nat) (ihB : BlockGoal img K f) (k : ActKind) (n
     exact ihB body hb s1 σ' .brk t1 _ exit stk ht1.2 ht1.1 hcb hbody (Or.inr rfl)
 
 
-theorem operand_zero : OperandGoal img K 0 := by
+theorem operand_zero : OperandGoal V img K 0 := by
   intro k op _ σ σ' o s pc exit stk _ _ _ h ho
   simp only [execOperand, Prod.mk.injEq] at h
   rcases ho with rfl | rfl <;> simp at h
 
-theorem operand_step (f : Nat) (ihB : BlockGoal img K f) : OperandGoal img K (f + 1) := by
+theorem operand_step (f : Nat) (ihRvs : RvToGoals V img K f) (ihB : BlockGoal V img K f) :
+    OperandGoal V img K (f + 1) := by
   intro k op hop σ σ' o s pc exit stk sim hpc hc h ho
   cases op with
   | light n =>
@@ -1000,19 +1063,19 @@ theorem operand_step (f : Nat) (ihB : BlockGoal img K f) : OperandGoal img K (f 
       cases n <;> (simp only [execOperand] at h; exact h)
     obtain ⟨hex, rfl⟩ := operand_plain k n .location σ σ' o s pc stk sim hpc hc h' ho
     exact hex
-  | zone n r => exact operand_zone f k n r hop σ σ' o s pc exit stk sim hpc hc h ho
+  | zone n r => exact operand_zone f ihRvs k n r hop σ σ' o s pc exit stk sim hpc hc h ho
   | matrixInline n rows cols cf =>
-    exact operand_matrixInline f k n rows cols cf hop.1 hop.2 σ σ' o s pc exit stk sim hpc hc h ho
+    exact operand_matrixInline f ihRvs k n rows cols cf hop.1 hop.2 σ σ' o s pc exit stk sim hpc hc h ho
   | matrixBlock n body =>
     exact operand_matrixBlock f ihB k n body hop σ σ' o s pc exit stk sim hpc hc h ho
 
-theorem operands_zero : OperandsGoal img K 0 := by
+theorem operands_zero : OperandsGoal V img K 0 := by
   intro k op _ σ σ' o s pc exit stk _ _ _ h ho
   simp only [execOperands, Prod.mk.injEq] at h
   rcases ho with rfl | rfl <;> simp at h
 
-theorem operands_step (f : Nat) (ihO : OperandGoal img K f) (ihOs : OperandsGoal img K f) :
-    OperandsGoal img K (f + 1) := by
+theorem operands_step (f : Nat) (ihO : OperandGoal V img K f) (ihOs : OperandsGoal V img K f) :
+    OperandsGoal V img K (f + 1) := by
   intro k ops hops σ σ' o s pc exit stk sim hpc hc h ho
   cases ops with
   | nil =>
@@ -1045,8 +1108,8 @@ theorem operands_step (f : Nat) (ihO : OperandGoal img K f) (ihOs : OperandsGoal
       subst hb'
       exact ihO k op hops.1 σ σ' .brk s pc exit stk sim hpc hc'.left hop (Or.inr rfl)
 
-theorem stmt_action (f : Nat) (ihOs : OperandsGoal img K f) (k : ActKind) (ops : Operands)
-    (hops : FragOperands ops) : StmtGoal img K (.action k ops) (f + 1) := by
+theorem stmt_action (f : Nat) (ihOs : OperandsGoal V img K f) (k : ActKind) (ops : Operands)
+    (hops : FragOperands V ops) : StmtGoal img K (.action k ops) (f + 1) := by
   intro σ σ' o s pc exit stk sim hpc hc h ho
   simp only [execStmt] at h
   have h' : andThen ((powerSet k σ).device fun vm => execInstr default vm .wait)
@@ -1075,8 +1138,9 @@ theorem stmt_action (f : Nat) (ihOs : OperandsGoal img K f) (k : ActKind) (ops :
 
 /-! ## `if` -/
 
-theorem stmt_ite_none (f : Nat) (ihB : BlockGoal img K f) (c : Rv) (hcnd : RvOK c) (t : Block)
-    (ht : FragBlock t) : StmtGoal img K (.ite c t none) (f + 1) := by
+theorem stmt_ite_none (f : Nat) (ihRv : RvToGoal V img K f) (ihB : BlockGoal V img K f) (c : Rv)
+    (hcnd : RvC V c) (t : Block)
+    (ht : FragBlock V t) : StmtGoal img K (.ite c t none) (f + 1) := by
   intro σ σ' o s pc exit stk sim hpc hc h ho
   simp only [genStmt, genIf, resolve_append, resolve_ins, ins_length, resolve, List.length_append,
     List.length_cons, List.length_nil] at hc ⊢
@@ -1085,10 +1149,9 @@ theorem stmt_ite_none (f : Nat) (ihB : BlockGoal img K f) (c : Rv) (hcnd : RvOK 
   · rename_i o' hev
     simp only [Prod.mk.injEq] at h
     obtain ⟨rfl, rfl⟩ := h
-    exact (error_excluded hcnd hev ho).elim
+    exact (errorC_excluded hev ho).elim
   · rename_i x σ1 hev
-    obtain ⟨rfl, hex⟩ := exec_toResult c hcnd sim hpc hc.left.left hev
-    refine hex.trans fun t0 ⟨ht0, hres⟩ => ?_
+    refine (rv_toResult ihRv c hcnd sim hpc hc.left.left hev).trans fun t0 ⟨ht0, hres⟩ => ?_
     have hj := hc.left.right.head
     by_cases hx : x.truthy = true
     · simp only [hx, if_true] at h
@@ -1102,8 +1165,9 @@ theorem stmt_ite_none (f : Nat) (ihB : BlockGoal img K f) (c : Rv) (hcnd : RvOK 
         (by simp) ht0.2 ht0.1 hj (by simp [hres, hx]; omega)).mono fun t1 ht1 => ?_
       simpa [Target] using ht1
 
-theorem stmt_ite_some (f : Nat) (ihB : BlockGoal img K f) (c : Rv) (hcnd : RvOK c) (t e : Block)
-    (ht : FragBlock t) (he : FragBlock e) : StmtGoal img K (.ite c t (some e)) (f + 1) := by
+theorem stmt_ite_some (f : Nat) (ihRv : RvToGoal V img K f) (ihB : BlockGoal V img K f) (c : Rv)
+    (hcnd : RvC V c) (t e : Block)
+    (ht : FragBlock V t) (he : FragBlock V e) : StmtGoal img K (.ite c t (some e)) (f + 1) := by
   intro σ σ' o s pc exit stk sim hpc hc h ho
   simp only [genStmt, genIf, resolve_append, resolve_ins, ins_length, resolve, List.length_append,
     List.length_cons, List.length_nil] at hc ⊢
@@ -1112,10 +1176,9 @@ theorem stmt_ite_some (f : Nat) (ihB : BlockGoal img K f) (c : Rv) (hcnd : RvOK 
   · rename_i o' hev
     simp only [Prod.mk.injEq] at h
     obtain ⟨rfl, rfl⟩ := h
-    exact (error_excluded hcnd hev ho).elim
+    exact (errorC_excluded hev ho).elim
   · rename_i x σ1 hev
-    obtain ⟨rfl, hex⟩ := exec_toResult c hcnd sim hpc hc.left.left.left.left hev
-    refine hex.trans fun t0 ⟨ht0, hres⟩ => ?_
+    refine (rv_toResult ihRv c hcnd sim hpc hc.left.left.left.left hev).trans fun t0 ⟨ht0, hres⟩ => ?_
     have hj := hc.left.left.left.right.head
     have hct := hc.left.left.right
     have hj2 := hc.left.right.head
